@@ -829,11 +829,6 @@ func drawStep1(t *rapid.T, s *rt.Section, vg *vmGen) Step {
 	case k < 15:
 		for try := 0; try < 5; try++ {
 			src, _ := g.Hostile()
-			// dir() lists a prototype in Go map order: its value is not a function of the VM (undocumented order), excluded
-			if strings.Contains(src, "dir(") {
-				s.Discard("hostile-dir-order")
-				continue
-			}
 			return Step{Src: src, Kind: "hostile"}
 		}
 		return Step{Src: "1", Kind: "fixed"}
@@ -875,6 +870,10 @@ var contentionTemplates = []string{
 	"3d{t} + {t}d6k2",
 	"[{t},2,3,4].shuffle()",
 	"typeId({t}) + dir([{t}]).len()",
+	// what dir() hands out is the caller's own list
+	"x = dir([]); x.push({t}); [x.len(), x[x.len()-1], dir([]).len()]",
+	"x = dir({'a':1}); x[0] = 'k{t}'; [x[0], dir({'a':2})[0]]",
+	"x = dir([{t}]); y = x + [{t}]; x.pop(); [x.len(), y.len(), y[y.len()-1]]",
 	"[{t},2,3,4].rand()",
 	"[{t},2,3,4].randSize(2)",
 	"x=[{t},2,3]; x.shuffle(); x.rand() + [1,2].randSize(1).len()",
